@@ -105,7 +105,7 @@ struct DocBuilder {
         ustr nm = next_name(u'a');
         doc += nm; doc += u'\n';
         bool one_line = s.find(u'\n') == ustr::npos;
-        if (1 + (long) open.size() + first_line_units + (one_line ? (long) close.size() : 0) <= PARSER_LIMIT) doc += u' ';
+        if (1 + (long) open.size() + first_line_units + (one_line ? (long) close.size() : 0) <= PARSER_LIMIT) doc += (s.size() % 3 == 1) ? u'\t' : u' ';
         doc += open; doc += s; doc += close; doc += u'\n';
         probes.push_back({nm, !open.empty(), what + " at line start"});
     }
